@@ -8,7 +8,7 @@ SRC="$1"; PROP="$2"; TIER="${3:-quick}"
 export GOFLAGS=-mod=mod GOPROXY=off GOSUMDB=off GOTOOLCHAIN=local
 WT=$(mktemp -d /tmp/confirm-XXXXXX)
 git -C /repo worktree add -q --detach "$WT" HEAD || exit 2
-cleanup() { git -C /repo worktree remove --force "$WT" 2>/dev/null; rm -rf "$WT"; git -C /repo checkout -- . 2>/dev/null; }
+cleanup() { git -C /repo worktree remove --force "$WT" 2>/dev/null; rm -rf "$WT"; [ -z "${SEED_DEV:-}" ] && git -C /repo checkout -- . 2>/dev/null; }
 trap cleanup EXIT
 pkg=$(grep -m1 '^package ' "$SRC/seeded_demo_test.go" | awk '{print $2}')
 case "$pkg" in fpgo) dir=. ;; worker) dir=worker ;; network) dir=network ;; *) echo "unknown package $pkg"; exit 2;; esac
@@ -23,11 +23,19 @@ echo "$out" | grep -q "^ok" && with=pass || with=fail
 rm -f "$WT/$dir/seeded_demo_test.go"
 echo "== existing suite WITH the change"; suite=$(REPO_DIR="$WT" "$(dirname "$0")/baseline.sh" 2>&1 | tail -2); echo "$suite"
 echo "$suite" | grep -q "37/37" && suiteok=yes || suiteok=no
+start=$(date +%s)
+if [ -n "${SEED_DEV:-}" ]; then
+  # development mode: the check runs against the scratch worktree /tmp/mut-wt + patch (tools/devseed.sh), /repo is not touched
+  echo "== check $PROP $TIER against /tmp/mut-wt + patch (dev mode)"
+  cout=$("$(dirname "$0")/devseed.sh" "$SRC" "$PROP" "$TIER" 2>&1); code=$(echo "$cout" | sed -n 's/^DEVSEED .* exit=//p' | tail -1)
+  echo "$cout" | grep -q "^  key=" && [ "$code" = 1 ] && cout="VIOLATION property=$PROP replay=dev
+$cout"
+else
 echo "== check $PROP $TIER against /repo + patch"
 git -C /repo apply "$SRC/patch.diff" || { echo "patch does not apply to /repo"; exit 2; }
-start=$(date +%s)
 cout=$(cd "$(dirname "$0")/.." && VERIF_EVIDENCE_DIR="$(pwd)/run/seed-evidence" ./check.sh "$PROP" "$TIER" 2>&1); code=$?
 git -C /repo checkout -- .
+fi
 dur=$(( $(date +%s) - start ))
 echo "$cout" | grep -E "key=|^$PROP " | head -6 | cut -c1-300
 det=no; [ $code -eq 1 ] && echo "$cout" | grep -q "^VIOLATION property=$PROP" && det=yes
